@@ -1,8 +1,12 @@
 package drive
 
 import (
+	"bytes"
 	"fmt"
+	"runtime"
 	"time"
+
+	"github.com/relab/gorums"
 
 	"verif/harness/gen/puppet"
 	"verif/harness/puppetsrv"
@@ -241,7 +245,26 @@ func (r *Runner) RunProgram(p Program) []uint64 {
 	}
 	// late replies of calls that ended early have been routed or dropped by now?
 	time.Sleep(200 * time.Microsecond)
-	tr.Emit("ProgEnd", 0, 0, "clean", clean)
+	// C18: what is left behind once everything has been answered
+	// (replies of handlers that have just returned may still be on their way:
+	// wait, bounded, until the tables are empty before taking the snapshot)
+	cg := 0
+	for i := 0; i < 4000; i++ {
+		left := 0
+		for n := 1; n <= nn; n++ {
+			left += gorums.VerifRouterCount(e.Node(n).RawNode)
+		}
+		if left == 0 {
+			if cg = CallGoroutines(); cg == 0 {
+				break
+			}
+		}
+		time.Sleep(250 * time.Microsecond)
+	}
+	for n := 1; n <= nn; n++ {
+		tr.Emit("Routers", uint32(n), 0, "count", gorums.VerifRouterCount(e.Node(n).RawNode))
+	}
+	tr.Emit("ProgEnd", 0, 0, "clean", clean, "callgoroutines", cg)
 	for _, c := range calls {
 		e.QS.Forget(c.tok)
 		for _, sv := range e.Servers {
@@ -249,4 +272,182 @@ func (r *Runner) RunProgram(p Program) []uint64 {
 		}
 	}
 	return toks
+}
+
+// CallGoroutines counts the goroutines the library started for individual
+// calls (asynchronous / correctable collection loops, cancellation watchers).
+func CallGoroutines() int {
+	buf := make([]byte, 1<<20)
+	for {
+		n := runtime.Stack(buf, true)
+		if n < len(buf) {
+			buf = buf[:n]
+			break
+		}
+		buf = make([]byte, 2*len(buf))
+	}
+	c := 0
+	for _, g := range bytes.Split(buf, []byte("\n\n")) {
+		if bytes.Contains(g, []byte("handleAsyncCall")) || bytes.Contains(g, []byte("handleCorrectableCall")) ||
+			bytes.Contains(g, []byte("(*channel).sendMsg.func")) {
+			c++
+		}
+	}
+	return c
+}
+
+// FreeCall issues one call of a free (unscheduled) workload and returns its
+// token.  cancel: "none", "safe" (end the context after the requests were
+// sent and delay has passed), "any" (end it after delay, whatever happens).
+func (r *Runner) FreeCall(method string, size, k int, nsw bool, cancel string, delay time.Duration) uint64 {
+	e := r.E
+	tr := e.Tr
+	tok := e.NextTok()
+	kind := methodKind[method]
+	req := &puppet.Req{Call: tok}
+	lv := "none"
+	if kind == "corr" || kind == "corrstream" {
+		lv = "count"
+	}
+	e.QS.Set(tok, &QFParams{QF: "thr", K: k, Lv: lv, Orig: req})
+	ctx := NewManualCtx(tok)
+	cfg := e.Cfgs[size]
+	node := e.Node(1 + int(tok)%len(e.Servers))
+	targets := size
+	if kind == "rpc" || kind == "ucast" {
+		targets = 1
+	}
+	obj := &callObj{}
+	from := tr.Len()
+	tr.Emit("StubCall", 0, tok, "method", method, "mgr", 0)
+	done := make(chan struct{})
+	go func() {
+		defer close(done)
+		r.Invoke(tok, method, kind, cfg, node, func(q *puppet.Req, _ uint32) *puppet.Req { return q }, nsw && (kind == "mcast" || kind == "ucast"), ctx, req, obj)
+	}()
+	if kind == "corrstream" && cancel == "none" {
+		// a stream call whose quorum function never reports done completes only
+		// by its context (by design): always end it eventually
+		cancel = "safe"
+		delay += 20 * time.Millisecond
+	}
+	if cancel != "none" {
+		go func() {
+			if cancel == "safe" {
+				settled := 0
+				tr.Await(from, SyncTimeout, func(ev vtrace.Event) bool {
+					if ev.Tok == tok {
+						switch ev.Ev {
+						case "SendDone", "CtxSkip", "BrokenReply", "ClosedReply":
+							settled++
+						}
+					}
+					return settled >= targets
+				})
+			}
+			time.Sleep(delay)
+			tr.Emit("CtxEnd", 0, tok, "cause", "canceled")
+			ctx.End("canceled")
+		}()
+	}
+	select {
+	case <-done:
+	case <-time.After(4 * SyncTimeout):
+		tr.Emit("Quiescent", 0, tok, "why", "stub did not return")
+	}
+	// asynchronous calls: wait for the future / correctable to complete, so that
+	// a goroutine's calls follow each other like a user's would
+	switch {
+	case obj.asyncRep != nil:
+		obj.asyncRep.Get()
+	case obj.asyncAgg != nil:
+		obj.asyncAgg.Get()
+	case obj.corr != nil:
+		select {
+		case <-obj.corr.Done():
+		case <-time.After(4 * SyncTimeout):
+			tr.Emit("Quiescent", 0, tok, "why", "correctable did not complete")
+		}
+	}
+	return tok
+}
+
+// Settle waits until every handler of the calls has returned and the router
+// tables are empty (bounded), then records the residue snapshot and ProgEnd.
+func (r *Runner) Settle(toks []uint64) bool {
+	e := r.E
+	tr := e.Tr
+	nn := len(e.Servers)
+	mine := map[uint64]bool{}
+	for _, t := range toks {
+		mine[t] = true
+	}
+	clean := true
+	starts, returns := 0, 0
+	{
+		// Await scanned everything recorded so far; poll until starts == returns
+		deadline := time.Now().Add(3 * SyncTimeout)
+		for {
+			starts, returns = 0, 0
+			for _, ev := range tr.Events(0) {
+				if mine[ev.Tok] {
+					switch ev.Ev {
+					case "HStart":
+						starts++
+					case "HReturn":
+						returns++
+					}
+				}
+			}
+			if starts == returns {
+				break
+			}
+			if time.Now().After(deadline) {
+				clean = false
+				break
+			}
+			time.Sleep(5 * time.Millisecond)
+		}
+	}
+	cg := 0
+	for i := 0; i < 8000; i++ {
+		left := 0
+		for n := 1; n <= nn; n++ {
+			left += gorums.VerifRouterCount(e.Node(n).RawNode)
+		}
+		if left == 0 {
+			if cg = CallGoroutines(); cg == 0 {
+				break
+			}
+		}
+		time.Sleep(250 * time.Microsecond)
+	}
+	for n := 1; n <= nn; n++ {
+		tr.Emit("Routers", uint32(n), 0, "count", gorums.VerifRouterCount(e.Node(n).RawNode))
+	}
+	tr.Emit("ProgEnd", 0, 0, "clean", clean, "callgoroutines", cg)
+	return clean
+}
+
+// LibGoroutines counts the goroutines running library code of the client
+// channels (senders, receivers, watchers, per-call collection loops).
+func LibGoroutines() int {
+	buf := make([]byte, 1<<20)
+	for {
+		n := runtime.Stack(buf, true)
+		if n < len(buf) {
+			buf = buf[:n]
+			break
+		}
+		buf = make([]byte, 2*len(buf))
+	}
+	c := 0
+	for _, g := range bytes.Split(buf, []byte("\n\n")) {
+		if bytes.Contains(g, []byte("gorums.(*channel).sender")) || bytes.Contains(g, []byte("gorums.(*channel).receiver")) ||
+			bytes.Contains(g, []byte("(*channel).sendMsg.func")) || bytes.Contains(g, []byte("handleAsyncCall")) ||
+			bytes.Contains(g, []byte("handleCorrectableCall")) {
+			c++
+		}
+	}
+	return c
 }
